@@ -8,6 +8,29 @@ let rec pos_of_int n = if n = 1 then XH else if n land 1 = 0 then XO (pos_of_int
 let z_of_int n = if n = 0 then Z0 else if n > 0 then Zpos (pos_of_int n) else Zneg (pos_of_int (- n))
 let rec int_of_pos = function XH -> 1 | XO p -> 2 * int_of_pos p | XI p -> 2 * int_of_pos p + 1
 let int_of_z = function Z0 -> 0 | Zpos p -> int_of_pos p | Zneg p -> - (int_of_pos p)
+let rec rd toks = match toks with
+  | "v" :: i :: k :: r -> (SVar (nat_of_int (int_of_string i), z_of_int (int_of_string k)), r)
+  | "i" :: z :: r -> (SInt (z_of_int (int_of_string z)), r)
+  | "d" :: m :: s :: r -> (SDec (z_of_int (int_of_string m), nat_of_int (int_of_string s)), r)
+  | "n" :: r -> let (a, r1) = rd r in (SNeg a, r1)
+  | "p" :: r -> let (a, r1) = rd r in (SPar a, r1)
+  | "a" :: r -> let (a, r1) = rd r in (SAbs a, r1)
+  | "e" :: r -> let (a, r1) = rd r in (SExp a, r1)
+  | "l" :: r -> let (a, r1) = rd r in (SLog a, r1)
+  | "b" :: op :: r -> let (a, r1) = rd r in let (b, r2) = rd r1 in
+      (SBin ((match op with "+" -> OAdd | "-" -> OSub | "*" -> OMul | "/" -> ODiv | "^" -> OPow | _ -> failwith "op"), a, b), r2)
+  | "M" :: r -> let (a, r1) = rd r in let (b, r2) = rd r1 in (SMM (MMax, a, b), r2)
+  | "m" :: r -> let (a, r1) = rd r in let (b, r2) = rd r1 in (SMM (MMin, a, b), r2)
+  | _ -> failwith "tree"
+let rec show = function
+  | SVar (i, k) -> Printf.sprintf "v%d@%d" (int_of_nat i) (int_of_z k)
+  | SInt z -> string_of_int (int_of_z z)
+  | SDec (m, s) -> Printf.sprintf "%de-%d" (int_of_z m) (int_of_nat s)
+  | SNeg a -> "(neg " ^ show a ^ ")" | SPar a -> "(par " ^ show a ^ ")"
+  | SAbs a -> "(abs " ^ show a ^ ")" | SExp a -> "(exp " ^ show a ^ ")" | SLog a -> "(log " ^ show a ^ ")"
+  | SBin (o, a, b) -> "(" ^ (match o with OAdd -> "+" | OSub -> "-" | OMul -> "*" | ODiv -> "/" | OPow -> "**") ^ " " ^ show a ^ " " ^ show b ^ ")"
+  | SMM (m, a, b) -> "(" ^ (match m with MMax -> "max" | MMin -> "min") ^ " " ^ show a ^ " " ^ show b ^ ")"
+let unesc s = String.map (fun c -> if c = '\030' then '\n' else c) s
 let fields f = if f = "" then [] else String.split_on_char '\031' f
 let esc s = String.map (fun c -> if c = '\n' then '\030' else c) s
 let strs f = List.map explode (fields f)
@@ -28,6 +51,12 @@ let () =
         | ["X"; names; x] -> (match index_of (strs names) (explode x) with Some n -> "=" ^ string_of_int (int_of_nat n) | None -> "!None")
         | ["L"; l; mn] -> "=" ^ string_of_int (int_of_z (lag_of (List.map z_of_int (ints l)) (z_of_int (int_of_string mn))))
         | ["M"; l; mn] -> "=" ^ string_of_int (int_of_z (lead_of (List.map z_of_int (ints l)) (z_of_int (int_of_string mn))))
+        | ["P"; blk; row; tree] ->
+            let (t, _) = rd (List.filter (fun x -> x <> "") (String.split_on_char ' ' tree)) in
+            if block_matches (explode (unesc blk)) (nat_of_int (int_of_string row)) t then "=true"
+            else "=false parsed: " ^ (match parse_stmt (stmt_of_block (explode (unesc blk))) with
+                                      | Some (r, e) -> string_of_int (int_of_nat r) ^ " " ^ show e
+                                      | None -> "no parse of " ^ implode (stmt_of_block (explode (unesc blk)))) ^ " expected: " ^ show (s_regroup t)
         | ["I"; k] -> "=" ^ implode (idx_text (z_of_int (int_of_string k)))
         | ["T"; num; k] -> "=" ^ implode (term_f (nat_of_int (int_of_string num)) (idx_text (z_of_int (int_of_string k))))
         | ["U"; num; k] -> "=" ^ implode (explode "solved_values(" @ explode num @ explode ", " @ f_idx_text (z_of_int (int_of_string k)) @ explode ")")
